@@ -18,13 +18,44 @@ CHECKS = {
     },
 }
 
+CLUSTER_NOTE = ('Trusted: the simulator (fake OS / network / clock under real Supvisors and real supervisor.process '
+                'objects; handlers atomic, proxy threads = FIFO queues, XML-RPC = direct call with marshalling), the '
+                'monitors, Hypothesis. Bounds: <= 4-5 instances, <= 3 nodes, <= 2 applications x 3 programs, prefix '
+                '<= 60 s after a warm-up <= 60 s, delays <= 4 s, quiet suffix of K ticks. Out of the simulator: discovery '
+                'mode, statistics collector, external publishers, web UI, real sockets / thread pre-emption.')
+
+CHECKS['C16'] = {
+    'engine': 'E1-clustersim',
+    'category': 'exploration',
+    'text': ('Generated cluster episodes (faults, schedules, heterogeneous configurations, user XML-RPC storms with valid '
+             'and invalid parameter values) on N real instances; oracle = no critical traceback from a last-resort guard, '
+             'no non-RPCError out of an XML-RPC, no exception out of a proxy thread or the main loop, no episode that '
+             'never returns (watchdog). Failures are bucketed by (exception type, innermost supvisors function). Held on '
+             'everything explored; no absence claim.'),
+    'design_ref': 'DESIGN.md 5/C16',
+    'note': CLUSTER_NOTE,
+    'technique': 'Hypothesis-generated fault/schedule/XML-RPC histories on a cluster simulator, exception bucketing',
+}
+CHECKS['C02'] = {
+    'engine': 'E1-clustersim',
+    'category': 'exploration',
+    'text': ('Generated cluster episodes (all synchro_options / failure strategies, restart / shutdown / end_sync requests, '
+             'process crashes with RESTART / SHUTDOWN strategies, faults and schedules); oracle = the exact per-incarnation '
+             'sequence of published Supvisors states follows a golden copy of the documented graph, working / ending '
+             'states are entered with a RUNNING Master and by non-Masters only after their Master. Two known findings '
+             '(supvisors_failure_strategy=SHUTDOWN) are recorded in known_findings.json.'),
+    'design_ref': 'DESIGN.md 5/C02',
+    'note': CLUSTER_NOTE,
+    'technique': 'Hypothesis-generated histories on a cluster simulator, invariant over the published state history',
+}
+
 HOOK_COMMITS = []
 
 ENGINES = [
     {'name': 'E1-clustersim', 'path': 'clustersim/', 'kind_free_text':
         'deterministic cluster simulator: N real Supvisors instances in one process on a fake OS / network / clock; '
         'Hypothesis generates configuration and history; per-property monitors',
-     'serves_properties': []},
+     'serves_properties': ['C02', 'C16']},
     {'name': 'E3-solo', 'path': 'clustersim/solo.py', 'kind_free_text':
         'one real instance with puppet peers / pure component harnesses driven by Hypothesis',
      'serves_properties': ['C11']},
@@ -32,5 +63,5 @@ ENGINES = [
 
 _PENDING = 'check not built yet in this round (the technique applies; see DESIGN.md section 5)'
 NOT_APPLICABLE = {pid: _PENDING for pid in
-                  ['C01', 'C02', 'C03', 'C04', 'C05', 'C06', 'C07', 'C08', 'C09', 'C10', 'C12', 'C13', 'C14', 'C15',
-                   'C16', 'C17', 'C18', 'C19', 'C20']}
+                  ['C01', 'C03', 'C04', 'C05', 'C06', 'C07', 'C08', 'C09', 'C10', 'C12', 'C13', 'C14', 'C15',
+                   'C17', 'C18', 'C19', 'C20']}
